@@ -87,7 +87,7 @@ pub fn gen_frame(ch: &mut Choices) -> FrameIn {
             segment_size: 0,
             code_align,
             data_align,
-            ra_reg: if version == 1 { ch.below(256) as u64 } else { ch.pick(&[16u64, 0, 30, 300, 0xffff]) },
+            ra_reg: if version == 1 { ch.below(256) as u64 } else { ch.pick(&[16u64, 0, 30, 300, 0xffff, 130, 255]) },
             lsda_enc,
             personality: Some((pers_enc, 0x4000 + ch.below(64) as u64 * 8)),
             fde_enc,
@@ -359,12 +359,12 @@ pub fn gen_line(ch: &mut Choices) -> LineIn {
             PathVal::Inline(b) => PathVal::Inline(b.clone()),
             PathVal::LineStrp(_) => PathVal::LineStrp(offs[ch.below(offs.len())]),
             PathVal::Strp(_) => PathVal::Strp(offs[ch.below(offs.len())]),
-            PathVal::Strx(..) => PathVal::LineStrp(offs[ch.below(offs.len())]),
+            PathVal::Strx(..) | PathVal::StrpSup(..) => PathVal::LineStrp(offs[ch.below(offs.len())]),
         }
     };
     let fixform = |f: u16| -> u16 {
         match f {
-            0x1a | 0x25 | 0x26 | 0x27 | 0x28 | 0x1f02 => FORM_LINE_STRP,
+            0x1a | 0x25 | 0x26 | 0x27 | 0x28 | 0x1f02 | 0x1d | 0x1f21 => FORM_LINE_STRP,
             f => f,
         }
     };
@@ -486,12 +486,16 @@ pub fn load_map<'a>(map: &'a Map, big: bool) -> gimli::Dwarf<EndianSlice<'a, Run
 thread_local! {
     /// with the stepwise API: read the line program row by row (`read_row`) instead of sequence by sequence
     pub static LINE_ROW_BY_ROW: std::cell::Cell<bool> = const { std::cell::Cell::new(false) };
+    /// with the stepwise API: write every unit as soon as it is converted (`ConvertUnit::write`)
+    pub static INCREMENTAL_WRITE: std::cell::Cell<bool> = const { std::cell::Cell::new(false) };
 }
 
 pub fn convert_dwarf(map: &Map, big: bool, stepwise: bool) -> Result<Map, String> {
     let endian = if big { RunTimeEndian::Big } else { RunTimeEndian::Little };
     let dwarf = load_map(map, big);
     let ca = |a: u64| Some(w::Address::Constant(a));
+    let mut sections = w::Sections::new(w::EndianVec::new(endian));
+    let incremental = stepwise && INCREMENTAL_WRITE.with(|c| c.get());
     let mut out = if stepwise {
         let mut wd = w::Dwarf::new();
         {
@@ -545,13 +549,16 @@ pub fn convert_dwarf(map: &Map, big: bool, stepwise: bool) -> Result<Map, String
                         unit.unit.get_mut(id).set(attr.name(), v);
                     }
                 }
+                if incremental {
+                    // each unit written as soon as it is converted (Dwarf::write below finishes the job)
+                    unit.write(&mut sections).map_err(|e| format!("write:{:?}", e))?;
+                }
             }
         }
         wd
     } else {
         w::Dwarf::from(&dwarf, &ca).map_err(|e| format!("convert:{:?}", e))?
     };
-    let mut sections = w::Sections::new(w::EndianVec::new(endian));
     out.write(&mut sections).map_err(|e| format!("write:{:?}", e))?;
     let mut m = Map::new();
     sections
@@ -680,6 +687,7 @@ pub fn check_line(ch: &mut Choices, cx: &mut Ctx) -> R {
     let stepwise = ch.chance(100);
     let row_by_row = stepwise && ch.bool();
     LINE_ROW_BY_ROW.with(|c| c.set(row_by_row));
+    INCREMENTAL_WRITE.with(|c| c.set(false));
     if row_by_row {
         cx.label("line: stepwise API, row by row");
     }
@@ -788,6 +796,11 @@ pub fn check_forest(ch: &mut Choices, cx: &mut Ctx) -> R {
     let d = gen_fdwarf(ch, &GenOpts { max_units: 3, max_dies: 10, lines: true, bad_refs: 0, split: false });
     let stepwise = ch.chance(80);
     LINE_ROW_BY_ROW.with(|c| c.set(stepwise && ch.bool()));
+    let incremental = stepwise && ch.bool();
+    INCREMENTAL_WRITE.with(|c| c.set(incremental));
+    if incremental {
+        cx.label("forest: units written as they are converted");
+    }
     cx.label(if stepwise { "forest: stepwise API" } else { "forest: Dwarf::from" });
     cx.sample_with(|| describe_fdwarf(&d));
     let asm = assemble(&d);
